@@ -312,7 +312,7 @@ pub fn run(args: &Args) -> i32 {
     run.assume("trusted base: SQLite's atomic commit / rollback and snapshot isolation; torn pages and fsync loss inside a commit are not modelled");
     run.assume("a failing ROLLBACK statement is not injected; random identifiers (account UUIDs, address check times) are masked when comparing a retry with an uninterrupted run");
     let t0 = Instant::now();
-    let wall_cap = args.tier.pick(44.0, 840.0);
+    let wall_cap = args.tier.pick(50.0, 840.0);
     let fx = Fixture::build();
     run.section("fixture_build_s", json!(t0.elapsed().as_secs_f64()));
     let prog = std::env::var("VERIF_PROGRESS").is_ok();
